@@ -185,15 +185,25 @@ const (
 // A wait that must end by an event uses C07Deadline().  When such waits have run into their
 // deadline three times in one runner process (the code under test is stuck - only a broken or
 // mutated implementation does that), the remaining cases use a short deadline so that the run
-// still ends and reports.
+// still ends and reports.  A wait that runs into the SHORT deadline says nothing about the code
+// under test (slow cannot be told from stuck, and the election windows of the retry cases are as long
+// as the short deadline): the driver records it as Unsure and the runners report such a case as one
+// they could not drive (never judged), see C07Driver.Expired.
 var c07Stuck atomic.Int32
+
+const c07Short = 300 * time.Millisecond
 
 func C07Deadline() time.Duration {
 	if c07Stuck.Load() >= 3 {
-		return 300 * time.Millisecond
+		return c07Short
 	}
 	return C07Generous
 }
+
+// C07Settle bounds the wait for the session function to return after a message that, as the code
+// stands, ends the session (the coordinator's fail message, its undecodable start message).  Running
+// into it is not trouble: the message did not end the session, the case goes on.
+const C07Settle = 3 * time.Second
 
 // C07Driver delivers scripted messages one at a time.
 type C07Driver struct {
@@ -202,6 +212,8 @@ type C07Driver struct {
 	Sid   string
 	Done  <-chan struct{} // closed when Execute (or the driven function) returned
 	Stuck bool            // a wait hit its deadline: nothing more is delivered
+	// a wait hit a deadline that was the shortened one: the runner could not drive the case
+	Unsure bool
 }
 
 func (d *C07Driver) finished() bool {
@@ -213,10 +225,27 @@ func (d *C07Driver) finished() bool {
 	}
 }
 
-// NoteStuck records that a wait ran into its deadline.
-func (d *C07Driver) NoteStuck() {
+// Finished: the session function has returned.
+func (d *C07Driver) Finished() bool { return d.finished() }
+
+// NoteStuck records that a wait ran into the generous deadline.
+func (d *C07Driver) NoteStuck() { d.Expired(C07Generous) }
+
+// Expired records that a wait bounded by limit (a value of C07Deadline()) ran into it.
+func (d *C07Driver) Expired(limit time.Duration) {
 	d.Stuck = true
+	if limit < C07Generous {
+		d.Unsure = true
+	}
 	c07Stuck.Add(1)
+}
+
+// Doubt: a wait bounded by limit (a value of C07Deadline()) ended without its event, which may be normal
+// under the generous deadline (the caller knows); under the shortened one the case was not driven.
+func (d *C07Driver) Doubt(limit time.Duration) {
+	if limit < C07Generous {
+		d.Unsure = true
+	}
 }
 
 // Deliver offers one message to the ordinal-th subscription of (session, t).  It returns true if
@@ -233,7 +262,7 @@ func (d *C07Driver) Deliver(t comm.MessageType, ordinal int, from peer.ID, paylo
 	sub := d.Comm.WaitSub(d.Sid, t, ordinal, d.Done, limit)
 	if sub == nil {
 		if !d.finished() {
-			d.NoteStuck()
+			d.Expired(limit)
 		}
 		return false
 	}
@@ -248,7 +277,7 @@ func (d *C07Driver) Deliver(t comm.MessageType, ordinal int, from peer.ID, paylo
 		ok = ScriptPush(sub, from, payload, limit, d.Done, next)
 	}
 	if !ok && time.Since(begin) >= limit {
-		d.NoteStuck()
+		d.Expired(limit)
 	}
 	return ok
 }
@@ -258,20 +287,33 @@ func (d *C07Driver) WaitRuns(n int) bool {
 	if d.Stuck {
 		return false
 	}
-	ok := d.Proc.WaitRuns(n, d.Done, C07Deadline())
+	limit := C07Deadline()
+	ok := d.Proc.WaitRuns(n, d.Done, limit)
 	if !ok && !d.finished() {
-		d.NoteStuck()
+		d.Expired(limit)
 	}
 	return ok
 }
 
 // WaitDone waits for the session function to return.
 func (d *C07Driver) WaitDone() bool {
+	limit := C07Deadline()
 	select {
 	case <-d.Done:
 		return true
-	case <-time.After(C07Deadline()):
-		d.NoteStuck()
+	case <-time.After(limit):
+		d.Expired(limit)
+		return false
+	}
+}
+
+// Settled waits up to limit for the session function to return; running into the limit is an
+// observation (the session goes on), not trouble.
+func (d *C07Driver) Settled(limit time.Duration) bool {
+	select {
+	case <-d.Done:
+		return true
+	case <-time.After(limit):
 		return false
 	}
 }
